@@ -10,6 +10,7 @@ from engine.model import src, stmt_key, dotted, walk_no_nested
 from engine.util import own_nodes, calls_with_nodes, where
 
 RULES = {
+    "R-19.10": "keys and elements are arbitrary values (0, the empty name, an empty tuple are keys): in dns/btree.py a local or parameter whose 'absent' marker is None (initialised or defaulted to None) is never tested by truth value",
     "R-19.9": "absolute positioning leaves no residue of the previous position: seek(), seek_first() and seek_last() each assign every cursor state field that any of them assigns (node, index, recurse, increasing, parents, parked, parking key); and a cursor that lives across a `yield` (the consumer may mutate the tree between two steps) is registered with the tree by `with`, so mutations park it",
     "R-19.8": "the root is collapsed whenever a delete left it without keys - whether or not the key was found: the descent merges children on the way down before it knows, so an unsuccessful delete can empty the root too (an internal root with 0 keys and 1 child breaks the occupancy bound and adds a level)",
     "R-19.7": "a clone is the same tree: in BTree.__init__ every structural attribute of the copy (t, root, size) is taken from the original's attribute of the same name, so node capacity and the nodes it governs stay consistent",
@@ -378,6 +379,28 @@ def run(model, rep, tier):
                           f"`{src(c)}` in a generator is not entered by `with`: it is never registered, so a mutation made by the consumer between two steps does not park it and the iteration "
                           "skips or repeats keys", stmt="generator-cursor")
     rep.floor("R-19.9-generators", n_gen, 1)
+    # ---------------------------------------------------------------- R-19.10
+    from engine.util import truthiness_uses
+    n_sent = 0
+    for fs in sorted(model.all_functions(), key=lambda g: g.qualname):
+        if fs.module.name != "dns.btree":
+            continue
+        names = {t_.id for x in ast.walk(fs.node) if isinstance(x, (ast.Assign, ast.AnnAssign)) and x.value is not None and isinstance(x.value, ast.Constant) and x.value.value is None
+                 for t_ in (x.targets if isinstance(x, ast.Assign) else [x.target]) if isinstance(t_, ast.Name)}
+        a_ = fs.node.args
+        allp = list(a_.posonlyargs) + list(a_.args)
+        for p_, d_ in zip(allp[len(allp) - len(a_.defaults):], a_.defaults):
+            if isinstance(d_, ast.Constant) and d_.value is None:
+                names.add(p_.arg)
+        for p_, d_ in zip(a_.kwonlyargs, a_.kw_defaults):
+            if d_ is not None and isinstance(d_, ast.Constant) and d_.value is None:
+                names.add(p_.arg)
+        n_sent += len(names)
+        for (n_, nm_, how) in truthiness_uses(fs.node, names):
+            rep.bad("R-19.10", fs.qualname, where(fs, n_), f"`{nm_}` uses None for 'absent' but is {how}: a falsy key or element (0, an empty name) is taken for 'absent' - e.g. deleting key 0 from an internal node "
+                    "removes its successor instead", stmt=f"none-sentinel {nm_}")
+    rep.floor("R-19.10", n_sent, 4)
+    rep.ok("R-19.10", "dns.btree", "dns/btree.py", f"{n_sent} None-marked locals/parameters are tested by identity only", stmt="none-sentinels")
     rep.meta["explanation"] = (
         "Ownership typestate for B-tree nodes: a fixpoint computes which _Node methods/parameters require an owned receiver (they write elts/children "
         "directly or transitively); every write and every such call in dns/btree.py is then checked with reaching definitions to have an owned receiver "
@@ -513,6 +536,8 @@ def _root_owned(cfg, at):
 
 
 WITNESSES = [
+    {"id": "c19-original-key-truth-tested", "rule": "R-19.10", "file": "dns/btree.py", "expect": "fires",
+     "old": "        if original_key is not None:\n            node, i = self._get_node(original_key)", "new": "        if original_key:\n            node, i = self._get_node(original_key)"},
     {"id": "c19-seek-last-keeps-parents", "rule": "R-19.9", "file": "dns/btree.py", "expect": "fires",
      "old": "        self.current_index = 1\n        self.recurse = False\n        self.increasing = False\n        self.parents = []\n", "new": "        self.current_index = 1\n        self.recurse = False\n        self.increasing = False\n"},
     {"id": "c19-iter-cursor-unregistered", "rule": "R-19.9", "file": "dns/btree.py", "expect": "fires",
